@@ -1,5 +1,7 @@
 import TSSVerif.Proofs.SssAlgebra
 import TSSVerif.Proofs.Choose
+import TSSVerif.Gen.Stmts
+import TSSVerif.Model.StmtsExpected
 /-!
 # C18 — secret sharing algebra: any t shares reconstruct; all t-subsets cross-checked
 
@@ -148,5 +150,11 @@ theorem choose_spec (n k : Nat) :
 example : chooseKoutOfN 4 2 = [[1, 2], [1, 3], [1, 4], [2, 3], [2, 4], [3, 4]] := by decide +kernel
 example : reconstruct 101 (gen 101 [5, 3, 2] 4) [4, 1, 3] = some 5 := by decide +kernel
 example : lagrangeCoefficient 101 1 [1] = none := by decide +kernel
+
+/-- **The source the model was transcribed from is the current source**: the statements of `ValueAt`, `reconstruct`, `Gen`, `lagrangeCoefficient`, `chooseKoutOfN` / `choose` / `concatInts` and the aggregation functions, in both the `mpc/bls` and the `mpc/ps` copy, regenerated from
+`/repo` on this run, are the committed ones (logging left out). A change of any of them — harmless or not — fails here
+first; the differential and monitored runs of this property are then the search for an input on which it fails. -/
+theorem source_as_modelled : TSSVerif.Gen.Stmts.sss = TSSVerif.Model.StmtsExpected.sss := by
+  decide +kernel
 
 end TSSVerif.Props.C18
